@@ -72,21 +72,25 @@ def compare_rows(ctx, prob, rows_eff, ll, spec, posterior=False):
         d = abs(ll[i] - ev["ll"])
         if ev["kappa"] > 1e8:
             ctx.classes["ill-conditioned(kappa>1e8)"] += 1
-        best = ((), d / ev["tol"], ev)
-        if d > 1e-2 * ev["tol"]:
+        best = ((), og.ratio_of(ev, ll[i]), ev)
+        if best[1] > 1e-2:
             # not clearly the true value: which explanation fits best - the true closed form or exactly one of
             # the recorded defects (closed form with that defect's signature)?
             for flags in og.subsets(prob.applicable_flags(row, posterior))[1:]:
                 ev2 = og.evaluate(prob, row, flags)
-                r2 = abs(ll[i] - ev2["ll"]) / ev2["tol"]
+                r2 = og.ratio_of(ev2, ll[i])
                 if r2 < best[1]:
                     best = (flags, r2, ev2)
         if best[1] > 1.0:
             raise Violation("marginal ln-likelihood differs from the closed form",
-                            row=row, row_index=i, code=float(ll[i]), closed_form=ev["ll"], diff=d, tol=ev["tol"],
+                            row=row, row_index=i, code=float(ll[i]), closed_form=ev["ll"], diff=d, tol=og.tol_of(ev),
                             kappa=ev["kappa"], mu=ev["mu"], Lambda=ev["Lam"],
                             tried_defect_signatures=[list(f) for f in og.subsets(prob.applicable_flags(row))[1:]])
-        ctx.stat_max("max |delta|/tol of accepted values", best[1])
+        if "tol" in best[2]:
+            ctx.stat_max("max |delta|/tol of accepted values that needed the full round-off model", best[1])
+            ctx.classes["accepted beyond the 1e-10 floor"] += 1
+        else:
+            ctx.classes["accepted within the 1e-10 relative floor"] += 1
         if best[2]["kappa"] < 1e6:
             ctx.stat_max("max accepted |delta| where kappa<1e6", abs(ll[i] - best[2]["ll"]))
         for f in best[0]:
